@@ -148,15 +148,29 @@ class World:
         return {'dirs': dirs, 'ignore': self.ignore}
 
 
+_TEMPLATES = {}
+
+
 def mk_parser(version, include_dirs=None, ignore=False, with_pkg=True):
     """a parser object of the given dialect with everything `__init__` of the common base sets, but
-    without running `_parse`"""
+    without running `_parse` (the schema validator, which only reads /repo's schema files, is shared)"""
     from barectf import config_parse_common as cpc
     from barectf import config_parse_v2, config_parse_v3
     from barectf.typing import VersionNumber
-    cls = config_parse_v3._Parser if version == 3 else config_parse_v2._Parser
-    p = object.__new__(cls)
-    cpc._Parser.__init__(p, io.StringIO(''), OD(), with_pkg, include_dirs, ignore, VersionNumber(version))
+    import copy as _copy
+    key = (version, with_pkg)
+    if key not in _TEMPLATES:
+        cls = config_parse_v3._Parser if version == 3 else config_parse_v2._Parser
+        t = object.__new__(cls)
+        cpc._Parser.__init__(t, io.StringIO(''), OD(), with_pkg, [], False, VersionNumber(version))
+        _TEMPLATES[key] = (t, list(t._include_dirs))
+    t, pkg_dirs = _TEMPLATES[key]
+    p = _copy.copy(t)
+    p._include_dirs = list(include_dirs or []) + pkg_dirs
+    p._ignore_include_not_found = ignore
+    p._include_stack = []
+    p._resolved_ft_aliases = set()
+    p._root_node = OD()
     return p
 
 
